@@ -48,32 +48,40 @@ theorem Triple.fail {P : Run → Prop} {Q : α → Run → Prop} {E : Run → Pr
 theorem Triple.call {P : Run → Prop} {Q : Unit → Run → Prop} {E : Run → Prop}
     (cls : Cls) (args : Args) (eff : State → State) (res : Args) (nat : State → Bool)
     (hok : ∀ r occs tr, P r → Q () { r with occs := occs, trace := tr, s := eff r.s })
-    (hbefore : ∀ r occs tr, P r → E { r with occs := occs, trace := tr })
+    (hbefore : ∀ r occs tr hl, P r → E { r with occs := occs, trace := tr, halted := hl })
     (hafter : ∀ r occs tr, P r → E { r with occs := occs, trace := tr, s := eff r.s }) :
     Triple P (call cls args eff res nat) Q E := by
   intro r hr
   unfold Sop.Commit.call
   simp only
-  cases faultHit r.fault cls (bumpOcc r.occs cls).2 with
-  | none =>
-    by_cases hn : nat r.s = true
-    · simp only [hn, ↓reduceIte]
-      exact hbefore r _ _ hr
-    · simp only [hn]
-      exact hok r _ _ hr
-  | some k =>
-    cases k with
-    | failBefore => exact hbefore r _ _ hr
-    | failAfter => exact hafter r _ _ hr
+  by_cases hs : (r.stopAt == some (cls, (bumpOcc r.occs cls).2)) = true
+  · simp only [hs, ↓reduceIte]
+    exact hbefore r _ r.trace true hr
+  · simp only [hs]
+    cases faultHit r.fault cls (bumpOcc r.occs cls).2 with
+    | none =>
+      by_cases hn : nat r.s = true
+      · simp only [hn, ↓reduceIte]
+        exact hbefore r _ _ r.halted hr
+      · simp only [hn]
+        exact hok r _ _ hr
+    | some k =>
+      cases k with
+      | failBefore => exact hbefore r _ _ r.halted hr
+      | failAfter => exact hafter r _ _ hr
 
 /-- `attempt` never raises: the Boolean says which way `m` ended -/
 theorem Triple.attempt {P : Run → Prop} {Q : Bool → Run → Prop} {E : Run → Prop} {m : M Unit}
-    (h : Triple P m (fun _ => Q true) (Q false)) : Triple P (attempt m) Q E := by
+    (h : Triple P m (fun _ => Q true) (Q false)) (hE : ∀ r, Q false r → E r) : Triple P (attempt m) Q E := by
   intro r hr
   have := h r hr
   unfold Sop.Commit.attempt
   cases hm : m r with
-  | error r' => rw [hm] at this; exact this
+  | error r' =>
+    rw [hm] at this
+    by_cases hh : r'.halted = true
+    · simp only [hh, ↓reduceIte]; exact hE _ this
+    · simp only [hh]; exact this
   | ok p => obtain ⟨a, r'⟩ := p; rw [hm] at this; exact this
 
 /-- `for x in xs do body` with an invariant -/
